@@ -43,11 +43,14 @@ func (k Keeper) handleBridgeHook(ctx sdk.Context, data []byte, hookMaxGas uint64
 		return
 	}
 
-	ctx, err = k.decorators(ctx, tx, false)
+	// keep the current context on failure: a failing decorator may return an empty context, and the
+	// deferred gas accounting above still needs this one's gas meter
+	anteCtx, err := k.decorators(ctx, tx, false)
 	if err != nil {
 		reason = fmt.Sprintf("Failed to run AnteHandler: %s", err)
 		return
 	}
+	ctx = anteCtx
 
 	// use cache context from here to avoid resetting sequencer number on failure
 	cacheCtx, commit := ctx.CacheContext()
